@@ -120,6 +120,8 @@ package round
 //@   modifies nothing
 //@   allocates
 //@   ensures typeis(result, *Abort) && result != nil && result.(*Abort).Err == err && fresh(result)
+// (C04) the abort names exactly the parties the round computed
+//@   ensures[C04] result.(*Abort).Culprits == culprits && result.(*Abort).Helper == h
 
 // ---- session construction (C20, C09): a session exists only for a duplicate-free party list that contains the
 // caller and a threshold 0 <= t <= n-1; otherwise an error and no session.
